@@ -44,6 +44,20 @@ func (dec *Decoder) stringToBigInt(s string, t reflect.Type) *big.Int {
 }
 
 func (dec *Decoder) stringToBigFloat(s string, t reflect.Type) *big.Float {
+	// an integer of more than 19 digits does not fit the default precision of 64 bits and
+	// would be rounded: it gets the precision it needs (never less than the default)
+	integer := len(s) > 19
+	for i := 0; i < len(s) && integer; i++ {
+		integer = s[i] >= '0' && s[i] <= '9' || i == 0 && (s[i] == '-' || s[i] == '+')
+	}
+	if integer {
+		if bf, ok := new(big.Float).SetPrec(uint(len(s))*10/3 + 2).SetString(s); ok {
+			if prec := bf.MinPrec(); prec > 64 {
+				return bf.SetPrec(prec)
+			}
+			return bf.SetPrec(64)
+		}
+	}
 	if bf, ok := new(big.Float).SetString(s); ok {
 		return bf
 	}
@@ -56,6 +70,11 @@ func (dec *Decoder) stringToBigFloat(s string, t reflect.Type) *big.Float {
 }
 
 func (dec *Decoder) stringToBigRat(s string, t reflect.Type) *big.Rat {
+	if !saneExponents(s) {
+		// big.Rat writes a decimal exponent out in digits: 1e999999 is a megabyte of them
+		dec.decodeStringError(s, t.String())
+		return nil
+	}
 	if bf, ok := new(big.Rat).SetString(s); ok {
 		return bf
 	}
